@@ -475,6 +475,25 @@ pub struct Env {
 }
 
 impl Env {
+    /// An environment around an arbitrary header model (no slot alphabets).
+    pub fn from_hdr(hdr: Hdr, purpose: Purpose) -> Env {
+        let header = hdr.build().expect("header builds");
+        let bcf = if purpose == Purpose::Bcf { BcfPre::new(&hdr, &header) } else { None };
+        Env {
+            bcf,
+            ff: hdr.ff,
+            purpose,
+            thorough: false,
+            hdr,
+            header,
+            info_slot: vec![None],
+            info_keys: vec![None],
+            fmt_slot: vec![None],
+            fmt_keys: vec![None],
+            gts: Vec::new(),
+        }
+    }
+
     pub fn new(ff: (u32, u32), n_samples: usize, idx: IdxMode, purpose: Purpose, thorough: bool) -> Env {
         let hdr = rich_header(ff, n_samples, idx);
         let header = hdr.build().expect("rich header builds");
